@@ -387,6 +387,34 @@ static void dev_apply(const doc_t *d, int kind, long pos, emit_fn emit,
 	    ob_put(o, s, d->nce[pos], len);
 	    emit(ctx, o->b, o->n, v);
 	}
+	/*
+	 * one more: the number made equal to the previous number that
+	 * stands in the same place of its line (same text between the start
+	 * of the line and the number): a frequency equal to the one before
+	 * it, a value equal to the one above it
+	 */
+	{
+	    int a = d->ncs[pos], ls = a;
+	    while (ls > 0 && s[ls - 1] != '\n')
+		--ls;
+	    for (long q = pos - 1; q >= 0; --q) {
+		int b = d->ncs[q], lq = b;
+		while (lq > 0 && s[lq - 1] != '\n')
+		    --lq;
+		if (b - lq == a - ls && memcmp(s + lq, s + ls,
+			    (size_t)(a - ls)) == 0) {
+		    if (d->nce[q] - b == d->nce[pos] - a &&
+			    memcmp(s + b, s + a, (size_t)(d->nce[q] - b)) == 0)
+			break;	/* equal already */
+		    o->n = 0;
+		    ob_put(o, s, 0, a);
+		    ob_put(o, s, b, d->nce[q]);
+		    ob_put(o, s, d->nce[pos], len);
+		    emit(ctx, o->b, o->n, NNUMREPL);
+		    break;
+		}
+	    }
+	}
 	break;
 
     case K_KW:
